@@ -21,7 +21,7 @@ CORPUS = os.path.join(VERIF, "corpus", "vmd")
 # abstract module of Vmd.tla -> corpus templates with that shape
 SHAPES = {
     "zero": ["zero"],
-    "one": ["one", "tail"],
+    "one": ["one"],
     "two": ["heap", "many"],
     "many": ["many", "big", "heap"],
     "fail": ["rtfail", "assertfail", "failnl_oob"],
